@@ -8,6 +8,7 @@ import (
 	"time"
 
 	"github.com/pion/dtls/v3/pkg/protocol/handshake"
+	"github.com/pion/logging"
 	kit "github.com/pion/webrtc/v4/internal/verifkit"
 )
 
@@ -16,10 +17,21 @@ import (
 // consistent with the exchanged a=setup values; exactly one is the ICE controlling agent, chosen per RFC 8445 §6.1.1.
 //
 // Exhaustive over 2 x 2 x 3 x 4 = 48 configurations. Everything SDP-level is read from the SDP text with kit.ParseSDP.
-// ICE roles through the public ICETransport.Role(). DTLS roles: (a) white-box dtlsTransport.role() once the transport
-// has left "new" (prepareStart has then used exactly this value), (b) black-box confirmation through the public
-// SettingEngine DTLS ClientHello / ServerHello message hooks (a ClientHello is only ever produced by the DTLS client,
-// a ServerHello only by the DTLS server).
+// ICE roles through the public ICETransport.Role().
+//
+// DTLS roles are OBSERVED, never recomputed: the deciding oracles (4a/4b) do not call dtlsTransport.role() — that
+// function is what Start hands to connectDTLS, so judging with it would hide a defect in role() itself (different answers
+// at different times) or in the way its result is used. Two observation channels per peer, both fed by pion/dtls, i.e.
+// by the handshake that is really running on that peer's ICE connection:
+//
+//	(a) the public SettingEngine ClientHello / ServerHello message hooks: a ClientHello is only ever produced by the
+//	    DTLS client (flight 1, no peer needed), a ServerHello only by the DTLS server (after it received a ClientHello);
+//	(b) the trace line pion/dtls' handshake FSM emits on every state change, "[handshake:client|server] ...", caught by a
+//	    private LoggerFactory (scope "dtls"). This one also speaks for a DTLS server that never receives a ClientHello,
+//	    which is what makes "both peers run as server" a decided violation instead of a watchdog.
+//
+// A peer whose evidence shows both directions is "both" and fails 4a/4b. dtlsTransport.role() is kept as a cross-check
+// (it also drives SRTP key extraction and data channel id parity, so it must agree with the role really played).
 
 type c13Cfg struct {
 	LiteOfferer, LiteAnswerer bool
@@ -60,7 +72,11 @@ func c13ExpectedICE(liteOfferer, liteAnswerer bool) (ICERole, ICERole) {
 	return v[0], v[1]
 }
 
-type c13Hello struct{ client, server atomic.Int32 }
+// c13Hello collects, for one peer, the evidence of the DTLS role it really plays.
+type c13Hello struct {
+	client, server       atomic.Int32 // ClientHello / ServerHello message hooks (public SettingEngine API)
+	fsmClient, fsmServer atomic.Int32 // pion/dtls handshake FSM trace lines "[handshake:client]" / "[handshake:server]"
+}
 
 func (h *c13Hello) install(se *SettingEngine) {
 	se.SetDTLSClientHelloMessageHook(func(m handshake.MessageClientHello) handshake.Message {
@@ -73,10 +89,62 @@ func (h *c13Hello) install(se *SettingEngine) {
 
 		return &m
 	})
+	se.LoggerFactory = c13LoggerFactory{h}
 }
 
 func (h *c13Hello) String() string {
-	return fmt.Sprintf("clientHello=%d serverHello=%d", h.client.Load(), h.server.Load())
+	return fmt.Sprintf("clientHello=%d serverHello=%d fsmClient=%d fsmServer=%d", h.client.Load(), h.server.Load(), h.fsmClient.Load(), h.fsmServer.Load())
+}
+
+func c13RoleName(client, server bool) string {
+	switch {
+	case client && !server:
+		return "client"
+	case server && !client:
+		return "server"
+	case client && server:
+		return "both"
+	default:
+		return "none"
+	}
+}
+
+// hookRole is the role shown by the hello message hooks alone.
+func (h *c13Hello) hookRole() string { return c13RoleName(h.client.Load() > 0, h.server.Load() > 0) }
+
+// observedRole is the role shown by all evidence (hooks + handshake FSM trace).
+func (h *c13Hello) observedRole() string {
+	return c13RoleName(h.client.Load() > 0 || h.fsmClient.Load() > 0, h.server.Load() > 0 || h.fsmServer.Load() > 0)
+}
+
+// c13LoggerFactory is silent like the rig's factory, except that the logger pion/dtls asks for (scope "dtls", one per
+// dtls.Conn) records which side the handshake FSM says it is running as.
+type c13LoggerFactory struct{ h *c13Hello }
+
+func (f c13LoggerFactory) NewLogger(scope string) logging.LeveledLogger {
+	if scope == "dtls" {
+		return c13DTLSLogger{h: f.h}
+	}
+
+	return rigNullLogger{}
+}
+
+type c13DTLSLogger struct {
+	rigNullLogger
+	h *c13Hello
+}
+
+func (l c13DTLSLogger) Tracef(format string, args ...any) {
+	if !strings.HasPrefix(format, "[handshake:%s]") || len(args) == 0 {
+		return
+	}
+	switch side, _ := args[0].(string); side {
+	case "client":
+		l.h.fsmClient.Add(1)
+	case "server":
+		l.h.fsmServer.Add(1)
+	default:
+	}
 }
 
 // c13Setups returns every a=setup value of the description (session level first), and whether some m-section has none
@@ -168,8 +236,9 @@ func TestVerifC13(t *testing.T) { //nolint:gocognit,cyclop,maintidx
 		"oracles apply; the DTLS role actually used is not observable because DTLS never starts")
 	run.Assume("when the offer text was rewritten to setup:active/passive/absent the offerer itself still believes it offered actpass; it must still " +
 		"take the role opposite to the answer's explicit a=setup")
-	run.Assume("DTLS role used = dtlsTransport.role() read after the transport left state new (white-box), confirmed on connected pairs by which " +
-		"peer's ClientHello / ServerHello hook fired (public API)")
+	run.Assume("DTLS role used = OBSERVED from the handshake itself: ClientHello/ServerHello message hooks (public SettingEngine API) plus the " +
+		"\"[handshake:client|server]\" trace of pion/dtls' handshake FSM (private LoggerFactory); a peer showing both directions counts as \"both\". " +
+		"dtlsTransport.role() is only cross-checked against the observation, it decides nothing")
 
 	cfgs := c13All()
 	reps := kit.N(1, 20)
@@ -350,10 +419,25 @@ func TestVerifC13(t *testing.T) { //nolint:gocognit,cyclop,maintidx
 
 			return
 		}
-		usedO, usedA := offerer.dtlsTransport.role().String(), answerer.dtlsTransport.role().String()
+		// Observation only: wait until the handshake running on each peer has shown which side it is (a DTLS client shows it
+		// with its first flight, a DTLS server when its FSM starts, at the latest with its ServerHello).
+		if !kit.Eventually(15*time.Second, func() bool { return helloO.observedRole() != "none" && helloA.observedRole() != "none" }) {
+			detail["dtls_evidence"] = fmt.Sprintf("offerer{%s} answerer{%s}", helloO, helloA)
+			run.Inconclusive("watchdog: DTLS role not observed")
+			run.Seen("outcomes", fmt.Sprintf("%s dtls=%s/%s not-observed(watchdog)", summary, helloO.observedRole(), helloA.observedRole()))
+
+			return
+		}
+		usedO, usedA := helloO.observedRole(), helloA.observedRole()
 		announcedA := c13RoleOfSetup(answered)
 		detail["dtls_used"] = fmt.Sprintf("offerer=%s answerer=%s", usedO, usedA)
+		detail["dtls_evidence"] = fmt.Sprintf("offerer{%s} answerer{%s}", helloO, helloA)
 		run.Count("dtls_role_checks", 1)
+		for _, h := range []*c13Hello{helloO, helloA} {
+			if h.fsmClient.Load() > 0 || h.fsmServer.Load() > 0 {
+				run.Count("dtls_roles_shown_by_fsm_trace", 1)
+			}
+		}
 		// (4b) the offerer takes the role opposite to the answer's explicit a=setup
 		if usedO != c13Inverse(announcedA) {
 			run.Violation(fmt.Sprintf("offerer-dtls-role-not-opposite-to-answer:answer=%s:used=%s", answered, usedO),
@@ -365,14 +449,24 @@ func TestVerifC13(t *testing.T) { //nolint:gocognit,cyclop,maintidx
 			run.Violation(fmt.Sprintf("answerer-dtls-role-differs-from-own-setup:answer=%s:used=%s:offered=%s", answered, usedA, cfg.Offered),
 				fmt.Sprintf("%s: the answerer announced a=setup:%s but runs DTLS as %s", desc, answered, usedA), i, detail)
 		}
+		// cross-check (decides nothing about 4a/4b): what DTLSTransport.role() answers now — the value SRTP key extraction and
+		// data channel id parity rely on — must be the role the handshake is really running as.
+		roleO, roleA := offerer.dtlsTransport.role().String(), answerer.dtlsTransport.role().String()
+		detail["dtls_role_func"] = fmt.Sprintf("offerer=%s answerer=%s", roleO, roleA)
+		if roleO != usedO || roleA != usedA {
+			run.Violation(fmt.Sprintf("dtls-handshake-direction-differs:offerer=%s/%s:answerer=%s/%s", roleO, usedO, roleA, usedA),
+				fmt.Sprintf("%s: DTLSTransport.role() says offerer=%s answerer=%s but the handshakes run as offerer=%s answerer=%s",
+					desc, roleO, roleA, usedO, usedA), i, detail)
+		}
 		if !complementary {
 			run.Count("dtls_answerer_check_skipped_same_cause", 1)
 			run.Seen("outcomes", fmt.Sprintf("%s dtls=%s/%s (answer not complementary; connection not expected)", summary, usedO, usedA))
 
 			return
 		}
-		if usedO == usedA {
+		if usedO == usedA || usedO == "both" || usedA == "both" {
 			// both client or both server: the handshake cannot complete; already reported above by 4a or 4b
+			run.Count("same_dtls_role_pairs", 1)
 			run.Seen("outcomes", fmt.Sprintf("%s dtls=%s/%s same-role", summary, usedO, usedA))
 
 			return
@@ -389,26 +483,19 @@ func TestVerifC13(t *testing.T) { //nolint:gocognit,cyclop,maintidx
 		if dO != DTLSTransportStateConnected || dA != DTLSTransportStateConnected {
 			run.Violation("dtls-not-connected-on-connected-pair", fmt.Sprintf("%s: PeerConnections connected but DTLS states are %s/%s", desc, dO, dA), i, detail)
 		}
-		// black-box confirmation of the handshake direction
+		// after a completed handshake every channel has spoken: the hello hooks alone, and all evidence together, must still
+		// show the roles judged above (a peer that turned out to run both directions is a violation of 4a/4b after all)
 		detail["hello_hooks"] = fmt.Sprintf("offerer{%s} answerer{%s}", helloO, helloA)
-		hookRole := func(h *c13Hello) string {
-			c, s := h.client.Load() > 0, h.server.Load() > 0
-			switch {
-			case c && !s:
-				return "client"
-			case s && !c:
-				return "server"
-			case c && s:
-				return "both"
-			default:
-				return "none"
-			}
+		hO, hA := helloO.hookRole(), helloA.hookRole()
+		if hO == "none" || hA == "none" {
+			run.Count("model_divergence", 1) // connected without a hello hook call: an observability gap, not a role defect
+			run.Seen("hello_hook_silent_on_connected_pair", desc)
 		}
-		hO, hA := hookRole(helloO), hookRole(helloA)
-		if hO != usedO || hA != usedA {
+		finO, finA := helloO.observedRole(), helloA.observedRole()
+		if (hO != "none" && hO != usedO) || (hA != "none" && hA != usedA) || finO != usedO || finA != usedA {
 			run.Violation(fmt.Sprintf("dtls-handshake-direction-differs:offerer=%s/%s:answerer=%s/%s", usedO, hO, usedA, hA),
-				fmt.Sprintf("%s: roles offerer=%s answerer=%s but hello messages were produced by offerer as %s, answerer as %s", desc, usedO, usedA, hO, hA),
-				i, detail)
+				fmt.Sprintf("%s: handshakes started as offerer=%s answerer=%s but hello messages were produced by offerer as %s, answerer as %s (all evidence: %s/%s)",
+					desc, usedO, usedA, hO, hA, finO, finA), i, detail)
 		}
 		run.Seen("outcomes", fmt.Sprintf("%s dtls=%s/%s connected", summary, usedO, usedA))
 		run.Sample(map[string]any{"config": desc, "answer_setup": answered, "ice": detail["ice_roles"], "dtls_used": detail["dtls_used"],
